@@ -323,3 +323,59 @@ def expected_clamp(v, lo, hi, has_min, has_max):
     if has_max and v > hi:
         v = hi
     return v
+
+
+def snip_offsets(unit, L, probes):
+    """SNIP: what a recursion callback does to its message cursor before it dispatches below - the statements of the callback
+    that store to the first parameter (`msg`), run in source order on each probe address -> {probe: offset the cursor ends at}.
+    Raises FD.Unknown when the callback has no such statements or they are not evaluable."""
+    from .defaultval import Mem, make_libc
+    msgp = L.params[0]
+    body = L.body
+
+    def stores_msg(st):
+        for y in A.walk(st):
+            k = y.get("kind")
+            if k in ("BinaryOperator", "CompoundAssignOperator") and y.get("opcode", "").endswith("=") and y.get("opcode") not in ("==", "!=", "<=", ">=") and A.ref_id(A.kids(y)[0]) == msgp["id"]:
+                return True
+            if k == "UnaryOperator" and y.get("opcode") in ("++", "--") and A.ref_id(A.kids(y)[0]) == msgp["id"]:
+                return True
+        return False
+    # the innermost block that holds the dispatch below and the stores in front of it
+    disp = [c for c in A.walk(body) if c.get("kind") == "CXXMemberCallExpr" and A.strip_casts(A.kids(c)[0]).get("name") == "dispatch"]
+    if len(disp) != 1:
+        raise FD.Unknown("%s: expected one dispatch below, found %d" % (L.label, len(disp)), body)
+    chosen = []
+    for blk in A.walk(body):
+        if blk.get("kind") != "CompoundStmt":
+            continue
+        ks = A.kids(blk)
+        idx = next((i for i, s_ in enumerate(ks) if any(y is disp[0] for y in A.walk(s_))), None)
+        if idx is None:
+            continue
+        mine = [s_ for s_ in ks[:idx] if s_.get("kind") != "DeclStmt" and stores_msg(s_)]
+        chosen = chosen + mine if blk is body else mine + chosen
+    if not chosen:
+        raise FD.Unknown("%s: nothing moves the message cursor in front of the dispatch below" % L.label, body)
+    out = {}
+    for text in probes:
+        mem = Mem()
+        _, libc = make_libc(mem)
+        base = mem.alloc(len(text) + 8)
+        mem.put(base, text)
+
+        def call(nm, vals, n):
+            r = libc((nm or "").split("::")[-1], vals, n)
+            if r is NotImplemented:
+                raise FD.Unknown("call to %s" % nm, n)
+            return r
+
+        def hook(n, ev):
+            if n.get("kind") == "StringLiteral":
+                return mem.literal(A.string_literal(n))
+            return NotImplemented
+        ev = FD.Eval(env={msgp["id"]: base}, deref=lambda a, n: mem.byte(a, n), call=call, node_hook=hook, max_steps=600)
+        for st in chosen:
+            ev.run(st)
+        out[text] = ev.env[msgp["id"]] - base
+    return out
